@@ -20,6 +20,8 @@ import JanetModel.Lib.TupleJoinCProofs
 import JanetModel.Lib.ConcatCProofs
 import JanetModel.Lib.BufPushCProofs
 import JanetModel.Lib.StrReplCProofs
+import JanetModel.Lib.Boot3Proofs
+import JanetModel.Lib.Boot4Proofs
 namespace JanetModel.Props.C17
 open JanetModel.Lib JanetModel.Gen.Lib
 
@@ -468,5 +470,13 @@ theorem mirror_replace (pat subst text : Bytes) (start : Option Int)
   ⟨StrC.replace_eq_spec pat subst text start hlen ht hs, StrC.replaceAll_eq_spec pat subst text start h32⟩
 
 example : StrC.replaceAll [97, 97] [120] [97, 97, 97, 97, 97] none = .ok [120, 120, 97] := by decide
+
+/-- boot.janet `partition` (pre-sized result array, `forv` loop over the full chunks, one shorter last chunk) and
+    `distinct` (`seen` table); `distinct` for a lawful equality on the elements -/
+theorem boot_partition_distinct {α : Type} [BEq α] [LawfulBEq α] (n : Nat) (hn : 1 ≤ n) (ind : List α) :
+    Boot.partition (n : Int) ind = .ok (partition n ind) ∧ Boot.distinct ind = .ok (distinct ind) :=
+  ⟨Boot.partition_eq_spec n hn ind, Boot.distinct_eq_spec ind⟩
+
+example : Boot.partition 2 [1, 2, 3] = .ok [[1, 2], [3]] ∧ Boot.distinct [1, 1, 2] = .ok [1, 2] := by decide
 
 end JanetModel.Props.C17
